@@ -43,7 +43,7 @@ Function terms (evaluate to callables)
 
 DS_DEFAULTS = {
     "params": [],  # list of terms: positional-by-name parameters p0, p1, ...
-    "cache": "mem",  # 'mem' | 'none'
+    "cache": "mem",  # 'mem' | 'none' | 'stored_factory' (defined through one stored dataset(cache=MemoryCache) factory)
     "callback": None,  # function term
     "effects": [],  # effect names
     "dispatch": None,  # term, or ('optkey', key) to pass the key as a plain string
